@@ -84,6 +84,25 @@ Theorem C11_cannot_unlock_while_marked : forall cfg st id sender, wf_cfg cfg -> 
 Proof. intros. apply begin_unlock_refused; [apply reachable_linv|]; assumption. Qed.
 Print Assumptions C11_cannot_unlock_while_marked.
 
+(* ... and for every other entry point that starts unlocking: MsgBeginUnlocking with coins (part of a lock),
+   MsgBeginUnlockingAll of the owner (refused as a whole while one of the owner's bonded locks carries a marker),
+   MsgForceUnlock (even for whitelisted owners) *)
+Theorem C11_cannot_unlock_partially_while_marked : forall cfg st id sender amt,
+  s_synths st id <> [] -> exists e, step cfg st (OBeginUnlockPartial sender id amt) = Err e.
+Proof. intros. apply begin_unlock_partial_refused. assumption. Qed.
+Print Assumptions C11_cannot_unlock_partially_while_marked.
+
+Theorem C11_cannot_unlock_all_while_marked : forall cfg st id l, wf_cfg cfg -> reachable cfg st ->
+  s_locks st id = Some l -> s_synths st id <> [] -> l_end l = 0 ->
+  exists e, step cfg st (OBeginUnlockAll (l_owner l)) = Err e.
+Proof. intros. eapply begin_unlock_all_refused; try eassumption. apply reachable_linv; assumption. Qed.
+Print Assumptions C11_cannot_unlock_all_while_marked.
+
+Theorem C11_cannot_force_unlock_while_marked : forall cfg st id sender, wf_cfg cfg -> reachable cfg st ->
+  s_synths st id <> [] -> exists e, step cfg st (OForceUnlock sender id) = Err e.
+Proof. intros. apply force_unlock_refused; [apply reachable_linv|]; assumption. Qed.
+Print Assumptions C11_cannot_force_unlock_while_marked.
+
 (* cannot_withdraw_before_matured: while the unstaking marker of a lock has not reached its end time, withdrawing the
    lock is refused and the end-block cleanup leaves the lock in place *)
 Theorem C11_cannot_withdraw_before_matured : forall cfg st id y, wf_cfg cfg -> reachable cfg st ->
@@ -153,7 +172,7 @@ Definition C11_drift_literal : Prop := forall cfg t0 vals mults sup off bnd ops,
   let st := run cfg (init_state t0 vals mults sup off bnd) ops in
   forall d v, Z.abs (dtok st d v - conn_val cfg st d v) <= conn_cnt st d v.
 
-Definition rf_cfg := mkCfg 100 (P18 / 2) [0].
+Definition rf_cfg := mkCfg 100 (P18 / 2) [0] [].
 Definition rf_vals := [(0, mkVal 1000000 (1000000 * P18))].
 Definition rf_ops := [OLock 0 0 3 100; OLock 1 0 3 100; OLock 2 0 3 100;
   ODelegate 0 1 0; ODelegate 1 2 0; ODelegate 2 3 0; OEpoch [(0, MDirect P18)] []; OUndelegate 0 1; OUndelegate 1 2].
@@ -169,17 +188,19 @@ Print Assumptions C11_drift_literal_refuted.
 
 (* non-vacuity: three owners lock 3 shares each (multiplier 1, risk factor 0.5) and delegate to validator 0; an epoch
    refreshes; two undelegate, one of them unbonds; time passes; cleanup; the third is topped up *)
-Definition nv_cfg := mkCfg 100 (P18 / 2) [0].
+Definition nv_cfg := mkCfg 100 (P18 / 2) [0] [2].
 Definition nv_init := init_state 1000 [(0, mkVal 1000000 (1000000 * P18)); (1, mkVal 5 (5 * P18))] [(0, P18)] 7000000 (-500) 1000005.
 Definition nv_ops := [OLock 0 0 3 100; OLock 1 0 3 100; OLock 2 0 3 150;
   ODelegate 0 1 0; ODelegate 1 2 0; ODelegate 2 3 0; OEpoch [(0, MDirect P18)] [];
   OUndelegate 0 1; OUndelegate 1 2; OUnbondLock 0 1; OAdvance 60; OBeginUnlock 2 3; OWithdraw 1; OAdvance 40; OCleanup;
-  OTopUp 2 3 7; OUndelegateAndUnbond 2 3 4].
+  OTopUp 2 3 7; OUndelegateAndUnbond 2 3 4; OBeginUnlockAll 2; OForceUnlock 2 3; OBeginUnlockPartial 2 3 1;
+  OLock 2 0 9 10; OBeginUnlockPartial 2 5 4; OForceUnlock 2 5].
 Example C11_nonvacuous :
   wf_cfg nv_cfg /\ reachable nv_cfg (run nv_cfg nv_init nv_ops) /\
   let st := run nv_cfg nv_init nv_ops in
   s_conn st 3 = Some (0, 0) /\ s_synths st 3 = [mkSynth Staking 0 0 0 100] /\
-  s_synths st 4 = [mkSynth Unstaking 0 0 1200 100] /\ s_locks st 1 = None /\
+  s_synths st 4 = [mkSynth Unstaking 0 0 1200 100] /\ s_locks st 1 = None /\ s_locks st 5 = None /\
+  s_locks st 6 = Some (mkLock 2 0 4 10 1110) /\
   s_deleg st 0 0 = Some (4 * P18) /\ s_supply st + s_offset st = 7000000 - 500 /\ s_supply st = 7000004 /\
   init_ok [(0, mkVal 1000000 (1000000 * P18)); (1, mkVal 5 (5 * P18))] [(0, P18)] /\
   snd (grun nv_cfg nv_init (fun _ _ => 0) nv_ops) 0 0 = 5 /\ conn_val nv_cfg st 0 0 = 3.
